@@ -654,3 +654,30 @@ func verifC05_read_interrupted() {
 	c.CloseNow()
 	vObserve("c05ri", two, cut, how, len(got))
 }
+
+// C05.close-vs-compress: a compressed message is being written (the compressor emits it in several frames, so the writer
+// passes through the frame lock more than once while it is inside the compressor) when another goroutine calls CloseNow.
+// Every interleaving at synchronisation operations within the preemption bound: the pooled compressor is not handed back
+// to the pool while the writer is still using it (pool monitor), and what reached the wire is a prefix of frames.
+func verifC05_close_vs_compress() {
+	client := vParam("client", 1) == 1
+	vInstallRand().concrete = true
+	vGhostPoolMode(0)
+	vGhostPoolMonitor(true)
+	t := vNewTransport(nil)
+	t.endMode = vEndBlock
+	c := vNewConn(t, client, vCopts(1+vChoose("mode", 2)), 16, 32)
+	c.flateThreshold = 8
+	doc := []byte(vCorpus[0])
+	done := make(chan error, 1)
+	vGhostExplore(vParam("preempt", 1))
+	go func() {
+		done <- c.Write(vBG, MessageText, doc)
+	}()
+	c.CloseNow()
+	<-done
+	vGhostExploreOff()
+	vReach("C05.close-vs-compress.done")
+	vAssertGhost(vGhostPoolViolations() == 0, "C05.pool.compressor-not-pooled-while-in-use")
+	vObserve("c05cvc", len(t.out))
+}
